@@ -264,8 +264,10 @@ func pickListener() (*net.TCPListener, error) {
 // upstreamOn arms a one-connection endpoint on a listener of the pool (a case that runs an earlier connection
 // through the same handler first arms the same listener twice, one after the other).
 func upstreamOn(l *net.TCPListener, greet func(net.Conn, *endpoint) bool, slow bool) *upstream {
-	// nothing may be pending from an earlier case
-	l.SetDeadline(time.Now())
+	// nothing may be pending from an earlier case (a connection that completed in the backlog after that case's
+	// endpoint had stopped accepting would be taken for this case's). The deadline lies shortly in the future:
+	// with a deadline that has already passed Accept fails at once without looking at the backlog.
+	l.SetDeadline(time.Now().Add(300 * time.Microsecond))
 	for {
 		c, err := l.Accept()
 		if err != nil {
